@@ -514,14 +514,14 @@ Proof.
     destruct Hps1 as [Hw1 Hm1].
     split; [|split; [|split; [|split]]].
     - intros q' x Hx. rewrite cs_get_set in Hx. destruct (proto_eqb q q') eqn:Eq.
-      + inversion Hx; subst x. unfold ps_remove_named, ps_wf. cbn [ps_ports]. exact Hw1.
+      + inversion Hx; subst x. unfold ps_drop_named, ps_wf. cbn [ps_ports]. exact Hw1.
       + exact (Hw q' x Hx).
     - eexists. rewrite cs_get_set. replace (proto_eqb q q) with true by (destruct q; reflexivity). reflexivity.
     - apply cs_all_set.
     - intros q' Hne. rewrite cs_get_set. destruct (proto_eqb q q') eqn:Eq; [apply proto_eqb_eq in Eq; congruence|reflexivity].
     - intros pr n. rewrite !cs_denote_eq, cs_all_set, cs_get_set.
       destruct (proto_eqb q pr) eqn:Eq.
-      + apply proto_eqb_eq in Eq. subst pr. rewrite Eps. cbn [opt_mem ps_remove_named ps_ports]. rewrite Hm1.
+      + apply proto_eqb_eq in Eq. subst pr. rewrite Eps. cbn [opt_mem ps_drop_named ps_ports]. rewrite Hm1.
         destruct (valid_port n), (cs_all acc), (imem n (ps_ports ps)), (negb (m =? NoPort)), (m =? n); reflexivity.
       + rewrite !andb_false_r, orb_false_r. reflexivity. }
   unfold conv_step, resolves.
